@@ -102,9 +102,12 @@ def c14Clauses (dst src res : Db) : List String :=
       let dm := d.times.mtime.getD 0; let sm := s.times.mtime.getD 0
       let w := if sm > dm then s else d
       let isRoot := d.parent == d.uuid
+      -- the two sides hold the same version of an entry under two time stamps (equal fields, equal history): a case of its own
+      let sameVersion := !r.isGroup && d.content == s.content && d.history == s.history
+      let sfx := if sameVersion then ":same-fields-and-history-different-time" else ""
       -- newest version wins
       (if r.content == w.content && r.times.mtime == w.times.mtime then [] else
-          [if r.isGroup then "group-not-newest-version" else "entry-not-newest-version"])
+          [if r.isGroup then "group-not-newest-version" else "entry-not-newest-version" ++ sfx])
       -- … with the rest of its time data (expiry flag and date, usage count, creation and access times)
       ++ (if r.times.other == w.times.other then [] else
           [if r.isGroup then "group-expiry-or-usage-not-from-newest-version" else "entry-expiry-or-usage-not-from-newest-version"])
@@ -128,7 +131,7 @@ def c14Clauses (dst src res : Db) : List String :=
           let want := if sm > dm then historyUnion sh (loserCur ++ dh) else historyUnion dh (loserCur ++ sh)
           let got := r.history.getD []
           if got.map (·.times.mtime) == want.map (·.times.mtime) && got.map (·.content) == want.map (·.content)
-          then [] else ["history-not-union-newest-first"])
+          then [] else ["history-not-union-newest-first" ++ sfx])
     | none, some s =>
       -- created from the source: same parent, same data
       (if r.parent == s.parent || s.parent == s.uuid then [] else ["created-under-wrong-parent"])
